@@ -5,6 +5,7 @@ import (
 	"encoding/xml"
 	"errors"
 	"fmt"
+	"math"
 	"strconv"
 )
 
@@ -217,18 +218,32 @@ func (d *Document) GetPageSettings() *PageSettings {
 		width := twipsToMM(parseFloat(sectPr.PageSize.W))
 		height := twipsToMM(parseFloat(sectPr.PageSize.H))
 
-		// 判断是否为预定义尺寸
-		settings.Size = identifyPageSize(width, height)
-		if settings.Size == PageSizeCustom {
-			settings.CustomWidth = width
-			settings.CustomHeight = height
-		}
-
 		// 设置方向
 		if sectPr.PageSize.Orient == string(OrientationLandscape) {
 			settings.Orientation = OrientationLandscape
 		} else {
 			settings.Orientation = OrientationPortrait
+		}
+
+		// 节属性中存储的是物理尺寸（横向时宽高已交换），而PageSettings中的尺寸是
+		// 未旋转的逻辑尺寸：getPageDimensions会在横向时再次交换。这里先换回逻辑尺寸，
+		// 否则每次 Get→Set 都会把自定义横向页面再旋转一次。
+		if settings.Orientation == OrientationLandscape {
+			width, height = height, width
+		}
+
+		// 判断是否为预定义尺寸（只接受与方向一致的匹配，
+		// 否则 297x210 的纵向自定义页面会在下一次设置时被改写为 210x297）
+		settings.Size = identifyPageSize(width, height)
+		if dims, ok := predefinedSizes[settings.Size]; ok {
+			const tolerance = 1.0
+			if !(abs(width-dims.width) < tolerance && abs(height-dims.height) < tolerance) {
+				settings.Size = PageSizeCustom
+			}
+		}
+		if settings.Size == PageSizeCustom {
+			settings.CustomWidth = width
+			settings.CustomHeight = height
 		}
 	}
 
@@ -383,8 +398,13 @@ func validatePageSettings(settings *PageSettings) error {
 		const minSize = 12.7  // 0.5英寸
 		const maxSize = 558.8 // 22英寸
 
-		if settings.CustomWidth < minSize || settings.CustomWidth > maxSize ||
-			settings.CustomHeight < minSize || settings.CustomHeight > maxSize {
+		// 以 twips 取整后的值比较：尺寸以整数 twips 存储，读回时 12.7mm(720 twips)
+		// 会变成 12.69999…，直接比较毫米值会拒绝刚刚读回的合法尺寸
+		minTwips, maxTwips := math.RoundToEven(mmToTwips(minSize)), math.RoundToEven(mmToTwips(maxSize))
+		widthTwips := math.RoundToEven(mmToTwips(settings.CustomWidth))
+		heightTwips := math.RoundToEven(mmToTwips(settings.CustomHeight))
+		if widthTwips < minTwips || widthTwips > maxTwips ||
+			heightTwips < minTwips || heightTwips > maxTwips {
 			return fmt.Errorf("页面尺寸必须在%.1f-%.1fmm范围内", minSize, maxSize)
 		}
 	}
